@@ -117,6 +117,45 @@ STRENGTHENED = {
                         "4-argument min / max and a three-link comparison chain, every position in turn the extremum",
     "C17-mut_C17-r3m1": "a dependency-sorting defect (iteration bound 2n): chains of four or more rules listed against their "
                         "dependencies are beyond C17's documents; caught by C02, the owning check, see C02-mut_C17-r3m1",
+    # ---- round 4, the other properties (round 3 for C08 / C17) ------------------------------------------------------
+    "C05-mut_C05-r4m2": "missed at first (isotopomer table memoised on the mapper); spec/LabelExpandSession.tla (Build / MutateFields / "
+                        "Build on one mapper, memo instance refuted)",
+    "C10-mut_C10-r4m2": "missed at first (one args memo shared by every result the Simulator hands out); spec/ResultViewsSession.tla "
+                        "(Continue / GetResult / Read interleavings) - which also exposed a genuine defect (fixed bfbb5a4)",
+    "C15-mut_C15-r4m1": "ended in exit 2 at first (a steady-state search continuing earlier work stored zero rows; the KeyError escaped "
+                        "through the harness); every library phase of the steady-state replay now turns an exception into an "
+                        "answer, histories simulate_protocol -> search and simulate -> update_variables -> search",
+    "C15-mut_C15-r4m2": "missed at first (scan worker dropped rel_norm); scan entry points with both norms on a family where the norms "
+                        "decide differently, wrong instance SteadyLoop_scan_abs refuted",
+    "C09-mut_C09-r4m1": "missed at first (mc.steady_state paired results with rows by label); label schemes range / shuffled / strings / "
+                        "repeated, rows identified by position, KeyedByLabel refuted; exposed the known finding repeated-labels-collapse",
+    "C14-mut_C14-r4m1": "missed at first (make_protocol bound values by position); a protocol step is a partial function name -> value, "
+                        "key order and omitted parameters are rendering choices; exposed a genuine defect (fixed bc6b273)",
+    "C18-mut_C18-r4m2": "missed at first (unscaled elasticities rounded to 8 digits); theorem Homogeneous, every point replayed as a scaled "
+                        "twin (constants x 2^-30, pools x 2^-7) judged relatively",
+    "C19-mut_C19-r4m1": "missed in my trial (leftover temporary files promoted before dispatch; the owner could not reproduce the miss); "
+                        "wrong instance Recover = TRUE refuted, kills strictly inside a write on every seed",
+    "C19-mut_C19-r4m2": "missed at first (scan.protocol_time_course dropped cache=); constant Forwards, invariants AllStored / "
+                        "ComputesExactlyMissing, in-process histories through all 12 public entry points that take cache=",
+    "C20-mut_C20-r4m2": "missed at first (ensemble_time_course dropped loss_fn); spec/FitEnsemble.tla: a wrapper forwards every option, "
+                        "dropped-option instances refuted, ensemble_* and carousel_* entry points",
+    # ---- round 5 (round 4 for C08 / C17) ---------------------------------------------------------------------------
+    "C02-mut_C02-r5m1": "a result-reading defect (get_parameter_values returning assignment-defined values, written back by results): "
+                        "outside what C02 exercises; caught by C04 and C13, see C04-mut_C02-r5m1",
+    "C02-mut_C02-r5m2": "a code-generation defect (derived parameters hoisted in declaration order): outside what C02 exercises; caught by "
+                        "C07, the owning check, see C07-mut_C02-r5m2",
+    "C06-mut_C06-r5m2": "missed at first (a called bare name looked up in the module before function-level imports); scopes as a regular "
+                        "dimension of Expr / Translate (imports with aliases, closure cells, module globals) - the same pass repaired "
+                        "four genuine name-resolution defects (68d2ba3, e893b8c, 4245bf9, a99b85f)",
+    "C11-mut_C11-r5m1": "missed at first (disambiguated name never checked against a function literally called like it); fnlib_alias got "
+                        "the literal inc_2",
+    "C11-mut_C11-r5m2": "missed at first (>= translated as >); FnLib pos now jumps AT its threshold, states contain 0",
+    "C12-mut_C12-r5m2": "covered by an extension made on reading the change (static fractional coefficients truncated by sympy.Integer): "
+                        "symbolic equations of the fractional variants judged by the rational oracle",
+    "C13-mut_C13-r5m2": "a Simulator defect (update_variables in place on the model's cached initial conditions): outside what C13 "
+                        "exercises; caught by C04, see C04-mut_C13-r5m2",
+    "C16-mut_C16-r5m2": "missed at first (the linear mapper kept its copy of the base reactions); sessions Build / edit base / Build on the "
+                        "linear mapper, theorem ThSess, memo instance refuted",
 }
 rows = []
 for d in sorted(p for p in root.iterdir() if p.is_dir()):
